@@ -35,9 +35,12 @@ def _loops(model):
             if isinstance(n, ast.For) and isinstance(n.target, ast.Name) and \
                     isinstance(n.iter, ast.Call) and \
                     norm(n.iter.func) == 'range' and any(
-                        isinstance(c, ast.Call) and
-                        '_DocumentTemplate:render_blocks'
-                        in model.callee_names(c, fi) for c in ast.walk(n)):
+                        isinstance(c, ast.Call) and (
+                            '_DocumentTemplate:render_blocks'
+                            in model.callee_names(c, fi) or
+                            '_DocumentTemplate:render_blocks_'
+                            in model.callee_names(c, fi))
+                        for c in ast.walk(n)):
                 best = n
         if best is None:
             raise AnalysisError(f'{fi.where}: item loop not found')
@@ -958,6 +961,48 @@ def rule_absent_vs_none(model):
     return r
 
 
+def rule_skip_scope(model):
+    r = RuleResult('C10.R9', 'a refused element is skipped (or the refusal '
+                   'reported) only for the element fetch: the handler that '
+                   'implements skip_unauthorized guards nothing but the '
+                   'guarded read of the element -- in particular not the '
+                   'rendering of the body, whose own Unauthorized errors '
+                   'must propagate and whose output must not be torn')
+    n = 0
+    for fi, lp in _loops(model):
+        for t in [x for x in ast.walk(lp) if isinstance(x, ast.Try)]:
+            skipping = [h for h in t.handlers if any(
+                isinstance(y, ast.Continue) for y in ast.walk(h))]
+            if not skipping:
+                continue
+            n += 1
+            renders = [c for b in t.body for c in ast.walk(b)
+                       if isinstance(c, ast.Call) and any(
+                           w.startswith('_DocumentTemplate:render_blocks')
+                           for w in model.callee_names(c, fi))]
+            pushes = [c for b in t.body for c in ast.walk(b)
+                      if isinstance(c, ast.Call) and (
+                          norm(c.func).endswith('_push') or
+                          norm(c.func) == 'push')]
+            ok = not renders and not pushes
+            r.instance(fi.where, 'try: ' + norm(t.body[0])[:80],
+                       'element fetch only' if ok else 'COVERS MORE')
+            if not ok:
+                what = 'the rendering of the body' if renders else \
+                    'the per-element push'
+                r.finding(fi.where, 'skip handler covers ' + what,
+                          f'the handler that skips a refused element also '
+                          f'covers {what}: an error raised while the body '
+                          'is rendered is taken for a refused element -- '
+                          'the element is silently skipped, with whatever '
+                          'part of its body was already emitted left in the '
+                          'output', node=t, ctx=fi)
+    if n < 2:
+        raise AnalysisError(f'C10.R9: only {n} skip handlers found in the '
+                            'item loops')
+    return r
+
+
 def rule_own_namespace(model):
     r = RuleResult('C10.R6', 'the variable object dtml-in pushes answers a '
                    'key without a dash only when a non-empty prefix= alias '
@@ -970,7 +1015,8 @@ def rule_own_namespace(model):
 RULES = [_inl(rule_index), _inl(rule_prefix), _inl(rule_providers),
          _inl(rule_empty),
          _inl(rule_twins), rule_own_namespace,
-         rule_pair_predicate, rule_absent_vs_none]
+         rule_pair_predicate, rule_absent_vs_none,
+         _inl(rule_skip_scope)]
 EXPLANATION = (
     'Loop-bound agreement (linear forms) for index uses and first/last '
     'markers; store-site query for prefix-aware keys; provider table for '
